@@ -56,7 +56,15 @@ TEnd ==
   /\ bad' = IF \A t \in B!Thr : lv[t] = KC THEN <<>> ELSE <<[p |-> "C17", w |-> "not every thread completed every use", at |-> l]>>
   /\ UNCHANGED <<bvars, div, arr, lv, nlead>>
 
-TNext == TArrive \/ TLeave \/ THang \/ TEnd
+\* truly concurrent threads (no scheduler): the driver monitors the observable contract of every use
+TReal ==
+  /\ IsEvent("RealSummary")
+  /\ bad' = (IF Line.bad_leaders = 0 THEN <<>>
+             ELSE <<[p |-> "C17", w |-> "uses of the barrier without exactly one leader: " \o ToString(Line.bad_leaders) \o " of " \o ToString(Line.uses)
+                                         \o " (first: use " \o ToString(Line.first_bad) \o " with " \o ToString(Line.first_bad_leaders) \o " leaders)", at |-> l]>>)
+            \o (IF Line.early = 0 THEN <<>> ELSE <<[p |-> "C17", w |-> "a thread returned from the barrier before all threads had entered that use (concurrent run)", at |-> l]>>)
+  /\ UNCHANGED <<bvars, div, arr, lv, nlead>>
+TNext == TArrive \/ TLeave \/ THang \/ TEnd \/ TReal
 TSpec == TInit /\ [][TNext]_tvars
 Progress == TLCSet(1, IF l > TLCGet(1) THEN l ELSE TLCGet(1)) /\ (bad # <<>> => TLCSet(2, bad)) /\ TLCSet(3, div)
 Post == PrintT(<<"RESULT", TLCGet(1) - 1, Len(TraceLog), TLCGet(2)>>) /\ PrintT(<<"DIVERGENCES", TLCGet(3)>>)
